@@ -427,6 +427,14 @@ func c11Enumerate(tier string, yield func(any)) {
 	for reason := 0; reason < 6; reason++ {
 		yield(&c11Case{Kind: "cli", N: reason})
 	}
+	// an issuer that is planned but cannot be built: nothing below it may be written in that run
+	for ent := 0; ent < 2; ent++ {
+		for _, st := range []int{9, 8, 16, 25} {
+			for how := 0; how < 2; how++ {
+				yield(&c11Case{Kind: "failing-issuer", N: ent, Strat: st, Perm: how})
+			}
+		}
+	}
 	// flag spellings: each of the five flags unmentioned (default), given (true) or given as =false
 	for world := 1; world <= 3; world++ {
 		for first := 0; first < 3; first++ {
@@ -512,10 +520,71 @@ func c11Exec(x *engine.Ctx, cc any) {
 		x.Outcome(fmt.Sprintf("forest n=%d", n))
 	case "files":
 		c11Files(x, c)
+	case "failing-issuer":
+		c11FailingIssuer(x, c)
 	case "cli":
 		c11CLI(x, c)
 	case "clispell":
 		c11CLISpell(x, c)
+	}
+}
+
+// c11FailingIssuer: settled root -> mid -> leaf (+ an unrelated root with a child). Entity N (root or mid)
+// is edited so that it is due for regeneration but cannot be signed (how 0: a signature algorithm that
+// does not fit the issuer's key; how 1: an extension whose content cannot be compiled). "Issuers are
+// always generated before the entities they sign, so every entity is signed by its issuer's new
+// certificate": when the issuer is not regenerated, nothing below it is, for no reason of its own applies.
+func c11FailingIssuer(x *engine.Ctx, c *c11Case) {
+	names := []string{"root", "mid", "leaf", "other", "otherleaf"}
+	issuers := []string{"", "root", "mid", "", "other"}
+	d := &Dir{}
+	for i, n := range names {
+		d.Certs = append(d.Certs, &refcfg.CertCfg{Path: n + ".yaml", Subject: "CN=" + n, KeyAlg: "P-224", Issuer: issuers[i]})
+	}
+	g := Generate(d, nil, drive.Default)
+	if !g.Res.OK() {
+		x.Violation("C11/failing-issuer/settling-run-failed", fmt.Sprint(g.Res.Err(), g.Res.Panic))
+		return
+	}
+	w := g.W
+	e := d.Certs[c.N]
+	how := "signature-algorithm-misfit"
+	if c.Perm == 0 {
+		e.SigAlg = "RSAwithSHA256" // every key here is EC
+	} else {
+		how = "uncompilable-extension"
+		e.Exts = []refcfg.Ext{{Kind: refcfg.KCustom, CustomOID: "1.2.3.4", Raw: refcfg.Bin([]byte{1})}, {Kind: refcfg.KEKU, EKU: refcfg.Strs("1")}} // a one-arc OID cannot be encoded
+	}
+	w.Put(e.Path, e.YAML())
+	before := w.Clone()
+	res := drive.Run(w, dbStrat(c.Strat), nil)
+	x.Transition(1)
+	x.Nontrivial(fmt.Sprintf("failing-issuer %d %d %d", c.N, c.Strat, c.Perm))
+	feat := fmt.Sprintf("entity=%s how=%s", names[c.N], how)
+	if res.Panic != "" {
+		x.Violation("C11/failing-issuer/panic/"+res.PanicSite, res.Panic)
+		return
+	}
+	if res.OK() {
+		if !res.Planned(names[c.N]) {
+			x.Outcome("failing-issuer: configuration refused earlier or entity not planned")
+			return
+		}
+		x.Violation("C11/failing-issuer/run-succeeded "+feat, fmt.Sprintf("strategy %05b: %s cannot be signed, yet the run reported success", c.Strat, names[c.N]))
+		return
+	}
+	x.Outcome("failing-issuer: run failed as it must")
+	// descendants of the failing entity (and the entity itself) keep their files
+	below := map[string]bool{names[c.N]: true}
+	for i := c.N + 1; i < 3; i++ {
+		below[names[i]] = true
+	}
+	for _, df := range simfs.Diff(before, w) {
+		for n := range below {
+			if strings.HasSuffix(df, ":"+n+".pem") {
+				x.Violation("C11/failing-issuer/written-below-an-issuer-that-was-not-regenerated "+feat, fmt.Sprintf("strategy %05b: %s failed to generate, yet %s", c.Strat, names[c.N], df))
+			}
+		}
 	}
 }
 
@@ -896,7 +965,7 @@ func init() {
 	register(&engine.Check{
 		ID:          "C11",
 		Level:       "model_checking",
-		Rule:        "(1) db.PlanBulkUpdate on a synthetic db.Database: for an issuer/subject pair the full product of per-entity states (artifact {absent, cert+key, cert+CSR, key only, cert only} x stored hash {none, equal, different} x (certificate expired / valid / not yet valid) x (configured end before the certificate's end / after it but still past / future / far future) x config older/newer than artifact) for both entities x issuer-vs-subject artifact time {<,=,>} x all 32 strategies; for every rooted forest on <=3 (quick) / <=4 (thorough) entities a 6-letter per-entity alphabet x all strict artifact-time orders + all-equal x 32 strategies (x 6 return-order permutations of roots/subscribers for n<=3). (2) the same pair states realised as files (hash line, PEM blocks, mtimes) on FsDb+simfs for all 225 artifact/hash combinations x config age x time relation x 32 strategies, followed by BulkUpdate (issuer written first, subject verifies under the issuer written in this run, nothing unplanned written). (3) the CLI binary with all 32 explicit flag combinations on one world per reason, and all 243 spellings of the five flags (unmentioned = default, given, given as =false; short and long forms) on three worlds, which pins the documented defaults (-m and -c on). Oracle: the decision table transcribed from the statement with explicit don't-care cells. states = distinct abstract worlds, transitions = plans computed",
+		Rule:        "(1) db.PlanBulkUpdate on a synthetic db.Database: for an issuer/subject pair the full product of per-entity states (artifact {absent, cert+key, cert+CSR, key only, cert only} x stored hash {none, equal, different} x (certificate expired / valid / not yet valid) x (configured end before the certificate's end / after it but still past / future / far future) x config older/newer than artifact) for both entities x issuer-vs-subject artifact time {<,=,>} x all 32 strategies; for every rooted forest on <=3 (quick) / <=4 (thorough) entities a 6-letter per-entity alphabet x all strict artifact-time orders + all-equal x 32 strategies (x 6 return-order permutations of roots/subscribers for n<=3). (2) the same pair states realised as files (hash line, PEM blocks, mtimes) on FsDb+simfs for all 225 artifact/hash combinations x config age x time relation x 32 strategies, followed by BulkUpdate (issuer written first, subject verifies under the issuer written in this run, nothing unplanned written). (3) the CLI binary with all 32 explicit flag combinations on one world per reason, and all 243 spellings of the five flags (unmentioned = default, given, given as =false; short and long forms) on three worlds, which pins the documented defaults (-m and -c on). (4) a settled chain whose root or intermediate is edited so that it is due but cannot be signed (misfitting signature algorithm / uncompilable extension) x 4 strategies: the run fails and no file at or below that entity changes. Oracle: the decision table transcribed from the statement with explicit don't-care cells. states = distinct abstract worlds, transitions = plans computed",
 		Bound:       map[string]string{"forest": "quick<=3 thorough<=4", "file layer": "2-entity chain"},
 		Assumptions: []string{"comparisons 'newer than its artifact' are not decided when the entity has no artifact file (don't-care)", "expiry is explored with certificates decades away from the wall clock"},
 		Budget:      budgets(quickBudget, thoroughBudget),
